@@ -1,6 +1,7 @@
 package main
 
 import (
+	"sort"
 	"context"
 	"fmt"
 	"io"
@@ -200,7 +201,30 @@ func extraC03(r *Run) {
 				return s.Send(&Msg{Count: 1})
 			}
 			ch, stop := tp.mk(svr)
-			ctx := metadata.NewOutgoingContext(context.Background(), reqMD)
+			// the caller attaches its metadata the two ways the API offers: a map (NewOutgoingContext) and appended pairs
+			ctx := context.Background()
+			baseMD := metadata.MD{}
+			var appended []string
+			var rkeys []string
+			for k := range reqMD {
+				rkeys = append(rkeys, k)
+			}
+			sort.Strings(rkeys)
+			for i, k := range rkeys {
+				if i%2 == 0 {
+					baseMD[k] = reqMD[k]
+				} else {
+					for _, v := range reqMD[k] {
+						appended = append(appended, k, v)
+					}
+				}
+			}
+			if len(baseMD) > 0 || len(appended) == 0 {
+				ctx = metadata.NewOutgoingContext(ctx, baseMD)
+			}
+			if len(appended) > 0 {
+				ctx = metadata.AppendToOutgoingContext(ctx, appended...)
+			}
 			var h1, h2, t1, t2 metadata.MD // duplicated call options: every target is filled
 			opts := []grpc.CallOption{grpc.Header(&h1), grpc.Header(&h2), grpc.Trailer(&t1), grpc.Trailer(&t2)}
 			var callErr error
